@@ -3,8 +3,10 @@
    align_optimal against PairAlign.  TRACE_FILE is a JSON array of traces, a trace an array
    of independent events
 
-     {s1, s2        symbol codes
-      M             score matrix (rows = first alphabet)
+     {s1, s2        symbol codes (indices into src.a1 / src.a2)
+      src           the substitution matrix as the caller specified it (MatrixForms.tla:
+                    form, alphabets, ndarray / dictionary / text grid handed to the constructor);
+                    the scoring table is SrcTable(src) - never what the constructed object reports
       gap           [g] or [open, ext]
       mode          "global" | "semi" | "local"
       oc            "ok" | "Rejected"
@@ -17,7 +19,7 @@
 
    Every event is judged on its own; disagreements are printed as <<"MISMATCH", tid, l, ...>>
    and never stop the run. *)
-EXTENDS PairAlign, Json, IOUtils, TLC
+EXTENDS PairAlign, MatrixForms, Json, IOUtils, TLC
 
 Tr == JsonDeserialize(IOEnv.TRACE_FILE)
 
@@ -31,11 +33,13 @@ CT == CandTable(ST, IdealMax)
 Dom_Args(e) ==
   /\ Dom_Gap(e.gap) /\ Dom_Mode(e.mode)
   /\ \A c \in DOMAIN e.calls : e.calls[c].maxn >= 1
+\* the generators only hand over well-formed sources and sequences over the alphabets
+Dom_Event(e) == Dom_Src(e.src) /\ Dom_Seq(e.s1, Len(e.src.a1)) /\ Dom_Seq(e.s2, Len(e.src.a2))
 
-(* the model of one call: outcome and optimal score *)
-Op_AlignOptimal(e) ==
+(* the model of one call under the scoring table M: outcome and optimal score *)
+Op_AlignOptimal(e, M) ==
   IF ~Dom_Args(e) THEN [oc |-> "Rejected", score |-> 0]
-  ELSE [oc |-> "ok", score |-> DPOptimalScore(e.s1, e.s2, e.M, e.gap, e.mode)]
+  ELSE [oc |-> "ok", score |-> DPOptimalScore(e.s1, e.s2, M, e.gap, e.mode)]
 
 IndexHonest(e) == Cardinality(ToSet(e.traces)) = Len(e.traces)
 CallOk(e, c) ==
@@ -46,29 +50,43 @@ CallDistinct(e, c) ==                                            \* "non-empty r
   LET ne == SelectSeq(c.idx, LAMBDA x : x \in 1..Len(e.traces) /\ Len(e.traces[x]) > 0)
   IN Cardinality(ToSet(ne)) = Len(ne)
 
-Judge(e, r) ==
+(* everything the property says about one recorded event, under the scoring table M *)
+Flags(e, M, r) ==
   LET okOc == r.oc = e.oc
       both == r.oc = "ok" /\ e.oc = "ok"
       okScore == both => ToSet(e.scores) = {r.score}
       okIdeal == (both /\ e.ideal = 1) =>
                    r.score = IdealOver(CandOf(CT, Len(e.s1), Len(e.s2), e.mode, e.gap),
-                                       e.s1, e.s2, e.M, e.gap, e.mode).opt
+                                       e.s1, e.s2, M, e.gap, e.mode).opt
       okTraces == both => \A k \in DOMAIN e.traces :
-                            GoodResultTrace(e.traces[k], e.s1, e.s2, e.M, e.gap, e.mode, r.score)
+                            GoodResultTrace(e.traces[k], e.s1, e.s2, M, e.gap, e.mode, r.score)
       okCount == both => \A c \in DOMAIN e.calls : CallOk(e, e.calls[c])
       okDistinct == both => IndexHonest(e) /\ \A c \in DOMAIN e.calls : CallDistinct(e, e.calls[c])
       okRescore == both => \A k \in DOMAIN e.traces :
                             (e.rescore[k] # <<>> /\ ValidTrace(e.traces[k], Len(e.s1), Len(e.s2))) =>
-                               e.rescore[k][1] = ScoreTrace(e.traces[k], e.s1, e.s2, e.M, e.gap, e.mode = "semi")
-  IN IF okOc /\ okScore /\ okIdeal /\ okTraces /\ okCount /\ okDistinct /\ okRescore THEN TRUE
-     ELSE PrintT(<<"MISMATCH", tid, l + 1,
-                   <<okOc, okScore, okIdeal, okTraces, okCount, okDistinct, okRescore>>,
-                   r.oc, r.score>>)
+                               e.rescore[k][1] = ScoreTrace(e.traces[k], e.s1, e.s2, M, e.gap, e.mode = "semi")
+  IN <<okOc, okScore, okIdeal, okTraces, okCount, okDistinct, okRescore>>
+AllTrue(f) == \A k \in DOMAIN f : f[k]
+
+(* known defect shape (finding C08-text-matrix-transposed; decides no expected value): the
+   event is exactly what the property demands under the block-transposed reading of a square
+   text *)
+KB_AsTransposedText(e) ==
+  KB_SquareGrid(e.src) /\
+  LET N == KB_TextAsRead(e.src) IN AllTrue(Flags(e, N, Op_AlignOptimal(e, N)))
+
+Judge(e) ==
+  IF ~Dom_Event(e) THEN PrintT(<<"BADEVENT", tid, l + 1>>)
+  ELSE LET M == SrcTable(e.src)
+           r == Op_AlignOptimal(e, M)
+           f == Flags(e, M, r)
+       IN IF AllTrue(f) THEN TRUE
+          ELSE PrintT(<<"MISMATCH", tid, l + 1, f, r.oc, r.score, KB_AsTransposedText(e)>>)
 
 Init == tid \in 1..Len(Tr) /\ l = 0
 Next == /\ l < Len(Tr[tid])
         /\ l' = l + 1
         /\ UNCHANGED tid
-        /\ LET e == Tr[tid][l + 1] IN Judge(e, Op_AlignOptimal(e))
+        /\ Judge(Tr[tid][l + 1])
 Spec == Init /\ [][Next]_tvars
 =============================================================================
